@@ -77,4 +77,18 @@ META = {
         "stub": STUB_WS + ["remote endpoint: scripted octet-level peer on the virtual time line"],
         "design_ref": "DESIGN.md section 4, C17",
     },
+    "C16": {
+        "title": "Configured payload limits are enforced early and never by truncation",
+        "budgets": {"quick": (150000, 60), "thorough": (4000000, 1200)},
+        "variants": ALL_VARIANTS,
+        "rule": ("three modes: recv (peer sends messages at limit-1/limit/limit+1/far beyond the drawn frame and message "
+                 "limits, spread over 1..4 fragments, optionally compressed; every frame header is delivered before and "
+                 "separately from its payload - header-only delivery - under a seeded segmentation), send (application "
+                 "sends at M-1/M/M+1 with and without compression, message and prepared API) and inflate (deflate with a "
+                 "decompression limit Z, messages at Z-1/Z/Z+1/10Z followed by further messages); non-trivial = a peer "
+                 "script or a refused send exists; distinct = hash of the (action kind, state) sequence"),
+        "real": REAL_WS,
+        "stub": STUB_WS + ["remote endpoint: scripted octet-level peer"],
+        "design_ref": "DESIGN.md section 4, C16",
+    },
 }
